@@ -183,7 +183,6 @@ def s_sender_new_session_count(repo):
 # ------------------------------------------------------------------------------------------------ C15
 def s_toi_field_copies(repo):
     checks = [
-        ("src/sender/filedesc.rs", r"let\s+toi\s*=\s*object\.config\.toi\.as_ref\(\)\.unwrap\(\)\.get\(\);", "FileDesc::new takes the TOI from the object's Toi handle"),
         ("src/sender/blockencoder.rs", r"toi:\s*self\.file\.toi,", "BlockEncoder::read copies FileDesc.toi into every Pkt"),
         ("src/common/alc.rs", r"lct::push_lct_header\(\s*&mut data,\s*0,\s*cci,\s*tsi,\s*&pkt\.toi,", "new_alc_pkt passes Pkt.toi to push_lct_header"),
         ("src/sender/toiallocator.rs", r"pub fn get\(&self\)\s*->\s*u128\s*\{\s*self\.value\s*\}", "Toi::get returns the allocated value"),
